@@ -368,7 +368,7 @@ def case_s(max_set=4):
             desc = draw(G.envelope_s(depth=0, small=True, seq_depth=1, max_auth=1, with_text=draw(st.booleans()), cwt=False))
             envs.append({"desc": desc, "vendor": v, "cls": c, "pos": draw(st.integers(0, 12)), "sign": draw(st.integers(0, 5)) == 0,
                          "fit": draw(st.sampled_from([None, None, None, None, "exact", "over1"]))})
-        neg = draw(st.sampled_from([None, None, None, "unknown", "duplicate", "missing", "dup-config"]))
+        neg = draw(st.sampled_from([None, None, None, "unknown", "duplicate", "duplicate-alias", "missing", "dup-config"]))
         if envs and neg == "unknown":
             e = draw(G.envelope_s(depth=0, small=True, seq_depth=1, max_auth=0, with_text=False))
             envs.insert(draw(st.integers(0, len(envs))), {"desc": e, "vendor": "unknown.example", "cls": "nobody", "pos": 1})
@@ -376,6 +376,26 @@ def case_s(max_set=4):
             src = draw(st.sampled_from(envs))
             e = draw(G.envelope_s(depth=0, small=True, seq_depth=1, max_auth=0, with_text=False))
             envs.insert(draw(st.integers(0, len(envs))), {"desc": e, "vendor": src["vendor"], "cls": src["cls"], "pos": 2})
+        elif envs and neg == "duplicate-alias":
+            # a role with TWO known classes (its default class and one the configuration assigns): one envelope of each -> duplicate role
+            cands = [r for r in roles if r in DEFAULTS[soc] and pair_of.get(r) not in (None, DEFAULTS[soc][r])
+                     and class_uuid(*DEFAULTS[soc][r]) not in {class_uuid(*tuple(vc)) for _, vc in config}]
+            if not cands:
+                r = draw(st.sampled_from([x for x in roles if x in DEFAULTS[soc]] or [None]))
+                if r is not None and all(c[0] != r for c in config):
+                    config.append([r, ["alias.example", "alias_" + r.lower()]])
+                    cands = [r]
+            if cands:
+                r = cands[0]
+                v, c = DEFAULTS[soc][r]
+                # make sure an envelope of the configured class of r is present too
+                cfg_pair = next(tuple(vc) for rr, vc in config if rr == r)
+                if not any((e["vendor"], e["cls"]) == cfg_pair for e in envs):
+                    e2 = draw(G.envelope_s(depth=0, small=True, seq_depth=1, max_auth=0, with_text=False))
+                    envs.append({"desc": e2, "vendor": cfg_pair[0], "cls": cfg_pair[1], "pos": 1})
+                if not any((e["vendor"], e["cls"]) == (v, c) for e in envs):
+                    e = draw(G.envelope_s(depth=0, small=True, seq_depth=1, max_auth=0, with_text=False))
+                    envs.insert(draw(st.integers(0, len(envs))), {"desc": e, "vendor": v, "cls": c, "pos": 2})
         elif envs and neg == "missing":
             src = draw(st.sampled_from(envs))
             e = draw(G.envelope_s(depth=0, small=True, seq_depth=1, max_auth=0, with_text=False))
